@@ -53,7 +53,7 @@ func (vfs *MemFS) searchNode(path string, slMode slMode) (
 	volNode := vfs.rootNode
 
 	if pi.VolumeNameLen() > 0 {
-		nd, ok := vfs.volumes[pi.VolumeName()]
+		nd, ok := vfs.volumes.root(pi.VolumeName())
 		if !ok {
 			err = vfs.err.NoSuchDir
 
@@ -496,4 +496,61 @@ func (sn *symlinkNode) setMode(mode fs.FileMode, u avfs.UserReader) bool {
 
 func (sn *symlinkNode) size() int64 {
 	return int64(len(sn.link))
+}
+
+// volumes
+
+// add adds the volume named name with the root directory root,
+// it returns false if the volume already exists.
+func (v *volumes) add(name string, root *dirNode) bool {
+	v.mu.Lock()
+	defer v.mu.Unlock()
+
+	if _, ok := v.roots[name]; ok {
+		return false
+	}
+
+	v.roots[name] = root
+
+	return true
+}
+
+// names returns the names of the volumes.
+func (v *volumes) names() []string {
+	if v == nil {
+		return nil
+	}
+
+	v.mu.RLock()
+	defer v.mu.RUnlock()
+
+	var l []string //nolint:prealloc // Consider preallocating `l`
+
+	for name := range v.roots {
+		l = append(l, name)
+	}
+
+	return l
+}
+
+// remove removes the volume named name.
+func (v *volumes) remove(name string) {
+	v.mu.Lock()
+	defer v.mu.Unlock()
+
+	delete(v.roots, name)
+}
+
+// root returns the root directory of the volume named name.
+func (v *volumes) root(name string) (*dirNode, bool) {
+	if v == nil {
+		return nil, false
+	}
+
+	v.mu.RLock()
+	defer v.mu.RUnlock()
+
+	root, ok := v.roots[name]
+
+	return root, ok
 }
